@@ -119,11 +119,11 @@ class Prover:
         # unknown (in practice: a timeout while all cores are busy, or an unlucky instantiation order): the same query again
         # with other random seeds and a longer budget - quantifier instantiation in z3 is seed sensitive - before the
         # second opinion.  Only `unsat` / `sat` answers count; a verdict never depends on which attempt produced it.
-        budget = getattr(self, "_retries_left", 6)  # at most six obligations per function get the extra attempts (bounds the run time on broken code)
+        budget = getattr(self, "_retries_left", 2)  # at most two obligations per symbolic run get the extra attempts (bounds the run time on broken code)
         self._retries_left = budget - 1
         for attempt, seed in enumerate((7, 23) if budget > 0 else (), 1):
             s_retry = z3.Solver()
-            s_retry.set("timeout", Z3_TIMEOUT_MS * (2 + attempt))
+            s_retry.set("timeout", Z3_TIMEOUT_MS * (1 + attempt))
             s_retry.set("random_seed", seed)
             z3.set_param("smt.random_seed", seed)
             for c in pc:
